@@ -91,6 +91,10 @@ SetSql(v)     == sqlerr # v /\ sqlerr' = v /\ Log(Rec("sqlerr", "", v))
 \* the client workload commits on every server that accepts writes (commits hang when no acker is left)
 Commit        == Log(Rec("commit", "", "all"))
                  /\ UNCHANGED <<ha, casc, master, active, switch, maint, recov, inst, health, mysql, opt, sqlerr, zkerr>>
+\* ... and a commit that hangs for good: it waits for an acknowledgement and the session survives KILL (the forced
+\* read-only attempts of a fencing node then FAIL, tick after tick - the error path of everything that fences)
+CommitStuck   == Log(Rec("commit", "", "stuck"))
+                 /\ UNCHANGED <<ha, casc, master, active, switch, maint, recov, inst, health, mysql, opt, sqlerr, zkerr>>
 \* an entry of the optimisation registry appears / changes / goes (mysync optimize on|off, the manager's own
 \* turbo mode, an external tool); it may name a host that is not registered (any more)
 SetOpt(h, v)  == opt[h] # v /\ opt' = [opt EXCEPT ![h] = v] /\ Log(Rec("opt", h, v))
@@ -109,7 +113,7 @@ Next == /\ Len(hist) < MaxLen
            \/ \E h \in Real, v \in HealthVals : SetHealth(h, v)
            \/ \E v \in SqlVals : SetSql(v)
            \/ \E v \in ZkVals : SetZk(v)
-           \/ Commit
+           \/ Commit \/ CommitStuck
            \/ \E h \in {"h2", "h3", Ghost}, v \in OptVals : SetOpt(h, v)
 Spec == Init /\ [][Next]_vars
 
